@@ -216,6 +216,14 @@ func genPeers(rng *rand.Rand, n int, allowOdd bool) []*peerInfo {
 	used := map[string]bool{}
 	var ps []*peerInfo
 	for i := 0; i < n; i++ {
+		if allowOdd && i == n-2 && rng.IntN(3) == 0 {
+			// a requester whose connection has no IP address at all (an onion service, a name): its IP is
+			// unknown, so every address it names is a foreign one
+			obs := pick(rng, []string{"/onion3/vww6ybal4bd7szmgncyruucpgfkqahzddi37ktceo3ah7ngmcopnpyyd:1234", "/dns4/requester.example.org/tcp/4001", "/dns/requester.example.net/udp/4001/quic-v1"})
+			name := fmt.Sprintf("c16-peer-%d", i)
+			ps = append(ps, &peerInfo{ID: peer.ID(name), Name: name, Observed: ma.StringCast(obs), ObsStr: obs, pub: true})
+			continue
+		}
 		var ipS string
 		pub := true
 		for {
